@@ -63,10 +63,16 @@ func (e *Env) assumeTyped(v Val) Val {
 		}
 	}
 	if f := e.vc.typeFacts(v); f != "true" {
-		key := "typed:" + f
+		// the fact holds for the heap state the expression is evaluated in, i.e. on the paths
+		// that reach this program point: guard it with the reach condition
+		r := e.reach
+		if r == "" {
+			r = "true"
+		}
+		key := "typed:" + r + ":" + f
 		if !e.vc.specDone[key] {
 			e.vc.specDone[key] = true
-			e.vc.assert(f)
+			e.vc.assume(r, f)
 		}
 	}
 	return v
@@ -1096,7 +1102,7 @@ func (e *Env) pureMethodCall(sel *ast.SelectorExpr, argExprs []ast.Expr) (Val, b
 		return v, true
 	}
 	vc.assert(vc.typeFacts(res))
-	ce := &Env{vc: vc, vars: map[string]Val{}, heap: e.heap, old: e.heap, now: e.now, pkg: e.pkg, what: "pure call of " + key + " in " + e.what}
+	ce := &Env{vc: vc, vars: map[string]Val{}, heap: e.heap, old: e.heap, now: e.now, pkg: e.pkg, what: "pure call of " + key + " in " + e.what, reach: e.reach}
 	if strings.HasPrefix(key, "iface ") || true {
 		// contract package
 		k := strings.TrimPrefix(key, "iface ")
